@@ -87,7 +87,19 @@ class RealGraph:
 
 # ------------------------------------------------------------------------------------------------
 # tensor programs (LeafWalk)
-UN_OPS = [lambda a: a * 2, lambda a: -a, lambda a: a + 1, lambda a: a * a]
+def _user_function(name: str):
+    """A user-defined differentiable op (torch.autograd.Function with a vmap rule): its autograd node is named
+    after the class the USER chose - any identifier, including ones that resemble torch's own node names."""
+    return type(name, (torch.autograd.Function,), {
+        "generate_vmap_rule": True,
+        "forward": staticmethod(lambda a: a * 3),
+        "setup_context": staticmethod(lambda ctx, inputs, output: None),
+        "backward": staticmethod(lambda ctx, g: g * 3)})
+
+
+USER_FUNCTIONS = [_user_function(n) for n in ("Triple", "AccumulateGradScale", "MulBackward0", "Detach")]
+UN_OPS = [lambda a: a * 2, lambda a: -a, lambda a: a + 1, lambda a: a * a] + \
+         [lambda a, F=F: F.apply(a) for F in USER_FUNCTIONS[:2]]
 # further single-node realisations of `un` for a complex operand: the result is real
 C_UN_OPS = [lambda a: a.real, lambda a: a.imag, lambda a: a.abs()]
 DTYPES = {"f64": torch.float64, "f32": torch.float32, "c128": torch.complex128, "c64": torch.complex64}
